@@ -100,5 +100,9 @@ def gen_nest(ch):
 def shard(ctx):
     ctx.drive("main", gen_case, ctx.n(2500, 40000), max_bytes=700)
     ctx.drive("nesting", gen_nest, ctx.n(12, 120), max_bytes=64)
+    # a ladder of nesting depths below the known limit, split over the shards
+    for j, d in enumerate(range(100, 900, 50 if ctx.tier == "quick" else 10)):
+        if j % ctx.nshards == ctx.shard:
+            ctx.check(dict(s="C", nest=d, strict=True, attribute=False, table=0))
     if ctx.tier == "thorough":
         _c08.fuzz(ctx, "c09_target", runs=40000)
